@@ -289,3 +289,31 @@ Proof.
   destruct (run_ok c shadowed ops st H) as [_ Ht].
   exact (timed_in_slot c _ n j Ht G Hp).
 Qed.
+
+(* ------------------------------------------------------------------------------------------- *)
+(* The property's sentence about reorgs in one statement: a head event for the current slot whose
+   previous dependent root differs (per the rule) from what the controller remembers replaces the
+   attestation jobs of the current epoch by exactly those of the duties the node reports now. *)
+Theorem head_event_prev_root_replaces : forall c st slot pr cr s,
+  slot = st_cur st ->
+  let ce := cur_epoch c (st_cur st) in
+  let d := reorg_decide (st_last_epoch st) (st_prev_root st) (st_cur_root st) (slot_to_epoch (c_ct c) slot) pr cr in
+  fst d = true -> snd d = false ->
+  texists (st_jobs st) (JPrep ce) = false ->
+  0 < first_slot_of_epoch (c_ct c) (add64 ce 1) ->
+  epoch_has c ce s = true ->
+  (c_ft_att c = false \/ s <> slot) ->
+  let ds := alookup (e_att (st_env st)) ce in
+  let notcur := negb (epoch_has c ce (st_cur st) && texists (st_jobs st) (JAtt (st_cur st))) in
+  tget (st_jobs (head_event c st slot pr cr)) (JAtt s) =
+  if e_vals (st_env st) && att_wanted c (st_cur st) notcur ds ce s then Some (att_job c ds ce s) else None.
+Proof.
+  intros c st slot pr cr s Hs ce d Hd1 Hd2 Hp Hov He Hft. cbv zeta.
+  rewrite (head_event_jobs c st slot pr cr (JAtt s) Hs). cbv zeta. fold d. fold ce. rewrite Hd1, Hd2.
+  assert (Eft : c_ft_att c && jname_eqb (JAtt slot) (JAtt s) = false).
+  { destruct Hft as [Hft|Hft]; [rewrite Hft; reflexivity|].
+    cbn [jname_eqb]. destruct (slot =? s) eqn:E; [apply N.eqb_eq in E; congruence | apply andb_false_r]. }
+  rewrite Eft.
+  rewrite (refresh_att_replaces c (st_cur st) (st_env st) ce (st_jobs st) (JAtt s) Hp Hov). cbv zeta.
+  rewrite He. reflexivity.
+Qed.
